@@ -70,14 +70,77 @@ def norm_quit(ts):
     return s.split(' ')
 
 
+def numeric_consts(root):
+    """`const NAME: <integer type> = <literal>;` of every file of the crate"""
+    out = {}
+    for d, _, fs in os.walk(root):
+        for f in fs:
+            if f.endswith('.rs'):
+                for m in re.finditer(r'\bconst\s+([A-Z][A-Z0-9_]*)\s*:\s*(?:u8|u16|u32|u64|usize|i32|i64)\s*=\s*([0-9][0-9_]*)\s*;',
+                                     open(os.path.join(d, f)).read()):
+                    out.setdefault(m.group(1), set()).add(m.group(2).replace('_', ''))
+    # a name that means two different numbers somewhere in the crate is left alone
+    return {k: next(iter(v)) for k, v in out.items() if len(v) == 1}
+
+
+def subst_consts(ts, consts):
+    """a named integer constant (with or without a module path) reads as its value"""
+    out = []
+    for t in ts:
+        if t in consts:
+            while len(out) >= 2 and out[-1] == '::' and re.fullmatch(r'[a-z_][a-z0-9_]*|crate|super|self', out[-2]):
+                out = out[:-2]
+            out.append(consts[t])
+        else:
+            out.append(t)
+    return out
+
+
+def helper_fns(ts):
+    """private free functions `fn name(app: &mut TuiApp) { body }` of the file: name -> body tokens"""
+    out = {}
+    sig = ['(', 'app', ':', '&', 'mut', 'TuiApp', ')', '{']
+    for i in range(len(ts) - 2):
+        if ts[i] == 'fn' and (i == 0 or ts[i - 1] != 'pub') and ts[i + 2:i + 2 + len(sig)] == sig:
+            name = ts[i + 1]
+            if name.startswith('verif_'):
+                continue
+            out[name] = fn_body(ts, name)
+    return out
+
+
+def inline_helpers(ts, helpers, depth=3):
+    """`name(app);` as a statement is the body of the helper"""
+    for _ in range(depth):
+        out, i, changed = [], 0, False
+        while i < len(ts):
+            if ts[i] in helpers and ts[i + 1:i + 5] == ['(', 'app', ')', ';'] and (i == 0 or ts[i - 1] in (';', '{', '}')) \
+                    and helpers[ts[i]] is not None and 'return' not in helpers[ts[i]] and '?' not in helpers[ts[i]]:
+                out += helpers[ts[i]]
+                i += 5
+                changed = True
+            else:
+                out.append(ts[i])
+                i += 1
+        ts = out
+        if not changed:
+            break
+    return ts
+
+
 def main():
     repo, out = sys.argv[1], sys.argv[2]
     src = open(os.path.join(repo, 'crates/trippy-tui/src/frontend.rs')).read()
     ts = toks(src)
     problems = []
-    run_app = fn_body(ts, 'run_app')
-    disp = fn_body(ts, 'verif_dispatch_key')
-    frame = fn_body(ts, 'verif_frame')
+    # both sides are read modulo two behaviour-preserving spellings: a named integer constant is its value,
+    # and a statement `helper(app);` of a private free function without `return` / `?` is the helper's body
+    consts = numeric_consts(os.path.join(repo, 'crates/trippy-tui/src'))
+    helpers = helper_fns(ts)
+    norm = lambda body: None if body is None else subst_consts(inline_helpers(body, helpers), consts)
+    run_app = norm(fn_body(ts, 'run_app'))
+    disp = norm(fn_body(ts, 'verif_dispatch_key'))
+    frame = norm(fn_body(ts, 'verif_frame'))
     n_tokens = 0
     if run_app is None or disp is None or frame is None:
         problems.append('run_app / verif_dispatch_key / verif_frame not found in frontend.rs')
